@@ -495,12 +495,20 @@ impl<'a> Ctx<'a> {
                 // F-raw-string-literal: a pattern written as a literal keeps its escaping backslashes and the
                 // implementation compensates by collapsing every `\\\\` pair to `\\`
                 let p = if self.dev.raw_string_literal && matches!(f.args[1], Expr::BareLit(Lit::Str { .. })) { p.replace("\\\\", "\\") } else { p };
+                let go_len = s.len();
                 match regex_ref::parse(&p) {
-                    Ok(re) => Ok(FnRes::Logical(if f.name == "match" {
-                        regex_ref::full_match(&re, &s)
-                    } else {
-                        regex_ref::search(&re, &s)
-                    })),
+                    Ok(re) => {
+                        let full = f.name == "match";
+                        let go = move || if full { regex_ref::full_match(&re, &s) } else { regex_ref::search(&re, &s) };
+                        // the reference matcher recurses once or twice per character: long subjects (the size
+                        // families go up to 65537 characters) are matched on a thread with a stack to suit
+                        let long = go_len > 2048;
+                        Ok(FnRes::Logical(if long {
+                            std::thread::Builder::new().stack_size(1usize << 30).spawn(go).expect("thread for a long subject").join().expect("reference matcher")
+                        } else {
+                            go()
+                        }))
+                    }
                     Err(regex_ref::ReErr::Invalid) => Ok(FnRes::Logical(false)),
                     Err(regex_ref::ReErr::Unsupported) => Err(Unsupported("regular expression outside the modelled dialect")),
                 }
